@@ -1112,6 +1112,97 @@ func cleanupRace(m *meta, rng *rand.Rand, round int) {
 	m.count("cleanup_race_rounds")
 }
 
+// queuedStampProbe (C05): a SetAsync that goes through the ring while its shard lock is busy must still live for its
+// whole TTL from the moment it is committed. Under the virtual clock: the harness holds the shard's write lock, the
+// SetAsync is queued, the worker dequeues it and blocks on the lock; the clock then advances by 7 s, the lock is
+// released, Sync. The clock does not move afterwards, so GetWithTTL must report exactly the TTL that was given.
+func queuedStampProbe(m *meta, rng *rand.Rand, round int) {
+	pol := pick(rng, []kioshun.EvictionPolicy{kioshun.LRU, kioshun.FIFO, kioshun.LFU, kioshun.SieveTinyLFU})
+	ctx := fmt.Sprintf("queued stamp probe round %d policy %v", round, pol)
+	kioshun.VerifSetClock(true, 1_000_000_000)
+	defer kioshun.VerifSetClock(false, 0)
+	c, err := kioshun.New[int, int](kioshun.Config{ShardCount: 1, EvictionPolicy: pol, MaxSize: 64})
+	must(err)
+	defer c.Close()
+	watch(ctx)
+	defer unwatch()
+	const ttl = 10 * time.Second
+	c.VerifHoldShard(0, true)
+	held := true
+	defer func() {
+		if held {
+			c.VerifHoldShard(0, false)
+		}
+	}()
+	if err := c.SetAsync(7, 70, ttl); err != nil {
+		return
+	}
+	// wait until the worker has taken the command out of the ring (it then blocks on the shard lock)
+	deadline := time.Now().Add(2 * time.Second)
+	for time.Now().Before(deadline) {
+		head, tail, _, _ := c.VerifRingState(0)
+		if head == tail {
+			break
+		}
+		time.Sleep(200 * time.Microsecond)
+	}
+	time.Sleep(5 * time.Millisecond)
+	kioshun.VerifAdvance(int64(7 * time.Second))
+	c.VerifHoldShard(0, false)
+	held = false
+	if err := c.Sync(); err != nil {
+		return
+	}
+	v, rem, ok := c.GetWithTTL(7)
+	if !ok || v != 70 {
+		m.violate("C05", fmt.Sprintf("%s: SetAsync(7, 70, 10s) queued behind a busy shard lock, clock advanced 7 s before the batch could be applied, then Sync: GetWithTTL = (%d, %v, %v), the entry must be resident", ctx, v, rem, ok), ctx)
+	} else if rem != ttl {
+		m.violate("C05", fmt.Sprintf("%s: SetAsync(7, 70, 10s) queued behind a busy shard lock, clock advanced 7 s before the batch could be applied, then Sync with the clock standing still: GetWithTTL reports %v remaining, the write committed just now and was given 10s (the lifetime counts from the commit)", ctx, rem), ctx)
+	}
+	kioshun.VerifAdvance(int64(9 * time.Second))
+	if _, ok := c.Get(7); !ok {
+		m.violate("C05", fmt.Sprintf("%s: the entry was gone 9 s after its write committed although it was given 10 s", ctx), ctx)
+	}
+	m.count("queued_stamp_probes")
+}
+
+// ttlBoundaryProbe (C05): on the real clock, entries with a 20 us TTL are polled with GetWithTTL until they miss;
+// every hit must report a remaining time in [0, ttl] (never negative: -1 means "never expires").
+func ttlBoundaryProbe(m *meta, rng *rand.Rand, round int) {
+	pol := pick(rng, []kioshun.EvictionPolicy{kioshun.LRU, kioshun.FIFO, kioshun.LFU, kioshun.SieveTinyLFU})
+	ctx := fmt.Sprintf("ttl boundary probe round %d policy %v", round, pol)
+	c, err := kioshun.New[int, int](kioshun.Config{ShardCount: 1, EvictionPolicy: pol, MaxSize: 64})
+	must(err)
+	defer c.Close()
+	watch(ctx)
+	defer unwatch()
+	const ttl = 20 * time.Microsecond
+	neg, over := 0, 0
+	var worst time.Duration
+	for i := 0; i < 1500; i++ {
+		c.Set(1, i, ttl)
+		for j := 0; j < 100000; j++ {
+			_, rem, ok := c.GetWithTTL(1)
+			if !ok {
+				break
+			}
+			if rem < 0 {
+				neg++
+				if rem < worst {
+					worst = rem
+				}
+			}
+			if rem > ttl {
+				over++
+			}
+		}
+	}
+	if neg > 0 || over > 0 {
+		m.violate("C05", fmt.Sprintf("%s: Set(1, i, 20us) polled with GetWithTTL until the miss, 1500 times: %d hits reported a negative remaining time (worst %v) and %d more than the TTL given; a hit's remaining time lies in [0, ttl] and -1 means 'never expires'", ctx, neg, worst, over), ctx)
+	}
+	m.count("ttl_boundary_probes")
+}
+
 // deleteBehindQueue (C01, C04): a SetAsync(k,v2) that was accepted and is still queued (the drain token is busy), then
 // Delete(k): the Delete began after the SetAsync returned, so after Sync the key must be gone.
 func deleteBehindQueue(m *meta, rng *rand.Rand, round int) {
@@ -1525,6 +1616,8 @@ func streamConc(o opts) {
 			backlogProbe(m, rng, r)
 			statsRace(m, rng, r)
 			cleanupRace(m, rng, r)
+			queuedStampProbe(m, rng, r)
+			ttlBoundaryProbe(m, rng, r)
 			deleteBehindQueue(m, rng, r)
 			doubleClear(m, rng, r)
 			m.nontrivial(fmt.Sprintf("async+close/%d", r%16))
